@@ -194,7 +194,7 @@ def run(tier):
     ctx = multiprocessing.get_context("fork")
     tpool = ctx.Pool(3, initializer=pl.worker_init)
     shapes = pl.long_shapes()
-    tsizes = [300, 3000, 30000] if quick else [1000, 10000, 100000]
+    tsizes = [100, 1000, 10000] if quick else [1000, 10000, 100000]
     factor = 20.0
     order = ["regex-leading-star"] + [s for s in shapes if s != "regex-leading-star"]
     tasync = tpool.imap_unordered(pl.time_shape, [(s, tsizes, 3, factor) for s in order])
@@ -206,10 +206,10 @@ def run(tier):
     for vname, inv in (("neg_other", "Contract"), ("neg_symattr", "RetypeSound"), ("neg_first", "RetypeSound")):
         jobs.append((vname, INVS, dict(workers=2, c=dict(Mode="model", MaxLen=2, Variant=vname))))
     jobs.append(("soup_bare", ["EmitSoup"], dict(c=dict(MaxLen=L))))
-    thorough_roots = ["OPN", "SYM", "STY", "GRD"]
-    for rc in ROOT_CLASSES:
-        deep = quick or rc in thorough_roots
-        jobs.append(("soup_" + rc, ["EmitSoup"], dict(c=dict(MaxLen=L if deep else 3, Roots={rc}))))
+    # after a root opener: every class-level root; the concrete block type rotates over all 19 (+4 kv)
+    jobs.append(("soup_blocks", ["EmitSoup"], dict(c=dict(MaxLen=L, Roots={"OPN", "SYM"}))))
+    jobs.append(("soup_blocks2", ["EmitSoup"], dict(c=dict(MaxLen=L, Roots={"STY", "GRD"}))))
+    jobs.append(("soup_other", ["EmitSoup"], dict(c=dict(MaxLen=3, Roots={"SET", "KVO"}))))
     if not quick:
         jobs.append(("soup_core5", ["EmitSoup"], dict(c=dict(MaxLen=5, Alphabet=set(CORE)))))
     jobs.append(("min", ["EmitMin", "Contract", "MinimalAccepted"], dict(c=dict(Mode="min"))))
@@ -217,15 +217,13 @@ def run(tier):
     nsim = 3000 if quick else 40000
     jobs.append(("mutsim", ["EmitMutDone", "TypeOK"],
                  dict(mode="simulate", simulate="num=%d" % nsim, depth=6, seed=seed + 1, c=dict(Mode="mutsim", MaxMut=3))))
+    # index-level behaviours with 1, 2 and 3 mutations (every prefix of a simulated behaviour is emitted)
     nwin = 12000 if quick else 110000
-    for m in (1, 2, 3):
-        jobs.append(("mutw%d" % m, ["EmitMutDone", "TypeOK"],
-                     dict(mode="simulate", simulate="num=%d" % (nwin // 3), depth=m + 3, seed=seed + 10 + m, c=dict(Mode="mutw", MaxMut=m))))
-    nlong = 6000 if quick else 60000
-    jobs.append(("sim12", ["EmitSim", "TypeOK", "RetypeSound"],
-                 dict(mode="simulate", simulate="num=%d" % nlong, depth=16, seed=seed + 2, c=dict(Mode="sim", MaxLen=12))))
-    jobs.append(("sim60", ["EmitSim", "TypeOK"],
-                 dict(mode="simulate", simulate="num=%d" % (nlong // 6), depth=64, seed=seed + 3, c=dict(Mode="sim", MaxLen=60))))
+    jobs.append(("mutw", ["EmitMut", "TypeOK"],
+                 dict(mode="simulate", simulate="num=%d" % (nwin // 3), depth=6, seed=seed + 10, c=dict(Mode="mutw", MaxMut=3))))
+    nlong = 7000 if quick else 70000       # random soups of 8, 16, 32 and 64 classes
+    jobs.append(("sim", ["EmitSim", "TypeOK", "RetypeSound"],
+                 dict(mode="simulate", simulate="num=%d" % nlong, depth=70, seed=seed + 2, c=dict(Mode="sim", MaxLen=64))))
 
     results = {}
     with ThreadPoolExecutor(max_workers=8 if quick else 6) as ex:
@@ -273,8 +271,7 @@ def run(tier):
     pl.CORPUS[:] = corpus + wdocs
     rng = random.Random(seed * 7919 + 5)
     ncorp = len(corpus)
-    for m in (1, 2, 3):
-        tag = "mutw%d" % m
+    for tag in ("mutw",):
         plan = []
         for i in range(sizes[tag]):
             # two thirds corpus files, one third generated documents
@@ -304,10 +301,8 @@ def run(tier):
                 pub_every=pub_every, limit=20.0)
     add(pl.class_batch, "mut", 2000, rooted=False, texts=2 if quick else 3, rec_every=40, pub_every=pub_every, limit=20.0)
     add(pl.class_batch, "mutsim", 1000, rooted=False, texts=2, rec_every=40, pub_every=pub_every, limit=20.0)
-    add(pl.class_batch, "sim12", 1000, rooted=False, texts=1, rec_every=25, pub_every=pub_every, limit=20.0)
-    add(pl.class_batch, "sim60", 250, rooted=False, texts=1, rec_every=25, pub_every=pub_every, limit=20.0)
-    for m in (1, 2, 3):
-        add(pl.window_batch, "mutw%d" % m, 150, n=WINDOW, rec_every=60 if quick else 200, limit=60.0)
+    add(pl.class_batch, "sim", 500, rooted=False, texts=1, rec_every=25, pub_every=pub_every, limit=20.0)
+    add(pl.window_batch, "mutw", 150, n=WINDOW, rec_every=60 if quick else 200, limit=60.0)
     # the slow corpus jobs first
     work.sort(key=lambda w: 0 if w[0] is pl.window_batch else 1)
     asyncs = [(fn.__name__, job["tag"], pool.apply_async(fn, (job,))) for (fn, job) in work]
@@ -316,11 +311,13 @@ def run(tier):
     traces = []
     roots_ok = set()
     per_origin = {}
+    cpu_origin = {}
     sig_seen = {}
     for fname, tag, a in asyncs:
         res = a.get(timeout=3600)
         ck.count(res["n"])
         per_origin[tag] = per_origin.get(tag, 0) + res["n"]
+        cpu_origin[tag] = round(cpu_origin.get(tag, 0.0) + res["cpu"], 2)
         for k, n in res["counts"].items():
             counts[k] = counts.get(k, 0) + n
         roots_ok |= res["roots_ok"]
@@ -399,7 +396,8 @@ def run(tier):
         "corpus_files": ncorp, "generated_docs": len(wdocs), "roots_accepted": sorted(roots_ok),
         "traces_tlc_validated": len(traces), "mechanism_drift_traces": drift_n,
         "timing": tcover, "phase_wall_s": {"tlc": round(t_tlc, 1), "replay_pool": round(t_pool, 1),
-                                           "waiting_for_timing": round(time.time() - t_wait, 1)}})
+                                           "waiting_for_timing": round(time.time() - t_wait, 1)},
+        "replay_cpu_s_per_origin": cpu_origin})
 
 
 def replay(path):
@@ -408,7 +406,7 @@ def replay(path):
     case = rp["case"]
     pl.worker_init()
     if "shape" in case:
-        sizes = case.get("sizes") or [300, 3000, 30000]
+        sizes = case.get("sizes") or [100, 1000, 10000]
         res = pl.time_shape((case["shape"], sizes, 3, 20.0))
         print(json.dumps(res))
         (n0, _c, t0, _w, _k), (n1, _c1, t1, _w1, _k1) = res["points"][0], res["points"][-1]
